@@ -459,3 +459,7 @@ def replay(case):
         return replay_bfs(case)
     vs, _ = run_history(case["cls"], case["nested"], case["init_cache"], tuple(case["hist"]), case["seed"])
     return [{"key": k, "msg": m, "case": case} for k, m in (vs or [])]
+
+
+def case_size(case):
+    return len(case.get("hist", []))
